@@ -129,9 +129,22 @@ impl crate::Executor for Exec {
 }
 
 fn random_telegram_bytes(rng: &mut Rng, fcs: &[profirust::fdl::FunctionCode]) -> Vec<u8> {
-    match rng.below(6) {
+    match rng.below(8) {
         0 => vec![0xDC, rng.u8(), rng.u8()],
         1 => vec![0xE5],
+        2 => {
+            // a valid frame no profirust encoder would produce: SD2 framing with LE = 3 or LE = 11
+            // (other stacks may send it; the decoder accepts it)
+            let le: u8 = if rng.bool() { 3 } else { 11 };
+            let mut body = vec![rng.u8() & 0x7f, rng.u8() & 0x7f, *rng.pick(&[0x49u8, 0x6c, 0x08, 0x5d, 0x00])];
+            body.extend(rng.bytes(le as usize - 3));
+            let cs = body.iter().fold(0u8, |a, b| a.wrapping_add(*b));
+            let mut f = vec![0x68, le, le, 0x68];
+            f.extend(body);
+            f.push(cs);
+            f.push(0x16);
+            f
+        }
         _ => random_frame(rng, fcs),
     }
 }
